@@ -87,7 +87,7 @@ def _returns_outside_nested(fn):
     return [x for x in ast.walk(fn) if isinstance(x, ast.Return) and id(x) not in inner]
 
 
-def _single_exit(body, make):
+def _single_exit(body, make, on_raise=None):
     """`body` with every `return E` replaced by the statements `make(E)` (E may be None) and the code behind an
     `if ...: return` moved into the else branch, so that control leaves the block at its end only.  Supported: returns that
     are the last statement of the function body or of an if/else arm (nested).  None when a return sits anywhere else (loop,
@@ -100,7 +100,11 @@ def _single_exit(body, make):
                 return None
             out.extend(make(st.value))
             return out
-        has_ret = any(isinstance(x, ast.Return) for x in ast.walk(st)) and not isinstance(st, (ast.FunctionDef, ast.ClassDef))
+        if isinstance(st, ast.Raise) and on_raise is not None:
+            out.extend(on_raise(st))
+            return out
+        has_ret = any(isinstance(x, ast.Return) or (on_raise is not None and isinstance(x, ast.Raise)) for x in ast.walk(st)) \
+            and not isinstance(st, (ast.FunctionDef, ast.ClassDef))
         if not has_ret:
             out.append(st)
             continue
@@ -114,20 +118,24 @@ def _single_exit(body, make):
         b_ends, o_ends = ends(st.body), ends(st.orelse)
         new = clone(st)
         if b_ends and o_ends:
-            nb, no = _single_exit(st.body, make), _single_exit(st.orelse, make)
+            nb, no = _single_exit(st.body, make, on_raise), _single_exit(st.orelse, make, on_raise)
             if nb is None or no is None or rest:
                 return None
             new.body, new.orelse = nb or [ast.Pass()], no
             out.append(new)
             return out
         if b_ends:
-            nb = _single_exit(st.body, make)
-            no = _single_exit(list(st.orelse) + list(rest), make)
+            nb = _single_exit(st.body, make, on_raise)
+            no = _single_exit(list(st.orelse) + list(rest), make, on_raise)
         elif o_ends:
-            nb = _single_exit(list(st.body) + list(rest), make)
-            no = _single_exit(st.orelse, make)
+            nb = _single_exit(list(st.body) + list(rest), make, on_raise)
+            no = _single_exit(st.orelse, make, on_raise)
         else:
-            return None
+            # some path through each arm goes on: the rest of the block is duplicated behind both arms
+            if sum(1 for x in rest for _ in ast.walk(x)) > 400:
+                return None
+            nb = _single_exit(list(st.body) + [clone(x) for x in rest], make, on_raise)
+            no = _single_exit(list(st.orelse) + list(rest), make, on_raise)
         if nb is None or no is None:
             return None
         new.body, new.orelse = nb or [ast.Pass()], no
